@@ -56,6 +56,36 @@ CLAIMED = {
         note=("Trusted: Coq kernel/vm_compute; generator and JSON-to-Coq translation in harness/props/c15.py; canonicaliser in harness/impl_parser.py; pretty_md models PrettyTable "
               "only for single-width characters. Fixes D18/D19/D21 committed in /repo; D20/D27/D28 are open known findings."),
         ref="DESIGN.md section 4 C15"),
+    "C09": dict(
+        technique='Coq proof over an executable model of the card section tree + model/implementation correspondence on random operation sequences',
+        text='Theorems in coq/props/C09.v (31, no axioms): split_subsection_names equals the token-level specification for every key (D13 repaired); add: get/position/frame/ancestors; select after ANY sequence of the 11 operation kinds returns what the last relevant add put there (via history/val, induction over the op list); delete removes the subtree, keeps frame and order, list form verbatim; select/delete fail exactly on a missing or empty-last name with KeyError and unchanged state; chained select = path select under the non-empty-names guard (refuted without it: finding C09-F1). Correspondence-only: that the model is the code -- compared after every operation (outcome class, TOC, render, every node, select of every path).',
+        note='Trusted: Coq kernel/vm_compute; harness/impl_card.py, cardgen.py, the canonical observation in coq/card/Show.v; str() of values. Open finding C09-F1 (empty middle names).',
+        ref='DESIGN.md section 4 C09'),
+    "C10": dict(
+        technique='Coq proof over an executable model of the card section tree + model/implementation correspondence on random operation sequences',
+        text='coq/props/C10.v (12 theorems): render events = the shown paths (visible, no invisible/folded ancestor) in pre-order with depth, for every reachable card; hidden sections contribute nothing; content wrapped in <details> iff folded, per section variant; save = utf8(render); get_toc = the rendered headings at depth-1 (D14 repaired). Correspondence-only: file bytes, PrettyTable output; copy_files is not exercised.',
+        note="Trusted: as C09, plus PrettyTable as an oracle (Section variable) and newline handling of open(..., 'w').",
+        ref='DESIGN.md section 4 C10'),
+    "C14": dict(
+        technique='Coq proof over an executable model of the card section tree + model/implementation correspondence on random operation sequences',
+        text='coq/props/C14.v (18 theorems): what is handed to PrettyTable (header = column names, one cell per entry, LF -> <br />, no LF left); metrics in first-seen order with latest value after any call sequence; placement at the given path with the last path part as title for every builder (D16 repaired); default alt text = own title (D17 repaired); one call with several items = one-by-one. Correspondence-only: PrettyTable layout and get_params (oracles), dict vs DataFrame abstraction, batch vs one-by-one on the implementation.',
+        note='Trusted: as C09; PrettyTable/get_params oracles. Not covered: add_model_plot, add_permutation_importances, add_fairlearn_metric_frame.',
+        ref='DESIGN.md section 4 C14'),
+    "C16": dict(
+        technique='Coq proof over an fs-operation model + audit-hook correspondence + crash injection',
+        text="coq/props/C16.v (12 theorems) about update_ops, the model of skops/cli/_update.py after repairing D22/D23: the write decision, inertness of every non-writing case, input untouched and destination in {old content, complete new content} at EVERY crash prefix of the operation list (any Append cut short; both filesystem placements), no residue on completion; refuted witnesses for the pre-fix code. That update_ops is the code is correspondence: the real file-operation sequence of main_cli observed by sys.addaudithook over protocol x output x inplace x TMPDIR placement, final directory state compared; crash injection (os._exit at every event boundary) is the search oracle. 'The written archive loads equal' is an oracle premise plus a harness check.",
+        note='Trusted: Fs.v semantics (POSIX rename atomicity), mkdtemp freshness, the audit-hook abstraction, zip digest modulo ids. Power loss / fsync ordering not modelled (process death only).',
+        ref='DESIGN.md section 4 C16'),
+    "C17": dict(
+        technique='Coq proof over an event model (log + fs ops) + audit-hook/stderr correspondence',
+        text='coq/props/C17.v (13 theorems): default output path and PurePath.stem model, operation order (read pickle fully, dumps, only then open/write), failure inertness, warning emitted iff untrusted names exist with exactly those names. Equivalence of the loaded object is an oracle premise plus a structural-fingerprint check. Input-unchanged is partial: open finding D29 (pickle named <x>.skops in the cwd with no -o is overwritten).',
+        note='Trusted: pickle; audit-hook abstraction; logging capture. D29 open known finding.',
+        ref='DESIGN.md section 4 C17'),
+    "C18": dict(
+        technique='Coq proof of sequencing + induction over one-hole contexts + exhaustive-position correspondence',
+        text='coq/props/C18.v (10 theorems): a failing serialisation means the sink sees no operation at all (existing path, new path, open file object), dumps never returns a prefix, and failure is independent of the position/depth of the unsupported element (induction over one-hole contexts with the leaf serialisers as oracle). That the real get_state has that strict shape is correspondence: every node position of generated structures x rotating bad-element kinds x 4 sinks under the audit hook.',
+        note='Trusted: audit-hook observation of the destination; the serializer itself is an oracle here (modelled under C04/C05).',
+        ref='DESIGN.md section 4 C18'),
 }
 
 PENDING_REASON = "check not built yet (see DESIGN.md section 8 build order); not claimed in this revision"
@@ -78,6 +108,8 @@ def main():
              "kind_free_text": "Coq 8.16.1 executable Gallina models (coq/base, io, card, sys) and property theorems (coq/props)"},
             {"name": "snapshot", "path": "harness/snapshot.py", "serves_properties": eng_props,
              "kind_free_text": "translator: tables computed by the live skops code -> Snapshot.v, regenerated and re-checked on every run"},
+            {"name": "corr-cli", "path": "harness/impl_cli.py", "serves_properties": [p for p in eng_props if p in ("C16", "C17", "C18")],
+             "kind_free_text": "audit-hook runner + crash injection for the command-line tools and dump sequencing"},
             {"name": "correspondence", "path": "harness/", "serves_properties": eng_props,
              "kind_free_text": "differential runs of the model (vm_compute) against /repo on generated cases"},
         ],
